@@ -187,6 +187,10 @@ def check_safe_eval(expression: str, context: dict[str, Any]) -> None:
     _check_safe_eval_cached(expression, context_items)
 
 
+# attributes of generators, coroutines, frames, tracebacks and code objects (CPython data model)
+INTROSPECTION_PREFIXES = ('gi_', 'cr_', 'ag_', 'f_', 'tb_', 'co_')
+
+
 @lru_cache(maxsize=1024)
 def _check_safe_eval_cached(
     expression: str,
@@ -213,6 +217,10 @@ def _check_safe_eval_cached(
 
         if isinstance(node, ast.Attribute) and node.attr.startswith('__'):
             raise SecurityError(f"Dunder access prohibited: .{node.attr}")
+
+        if isinstance(node, ast.Attribute) and node.attr.startswith(INTROSPECTION_PREFIXES):
+            # NOTE: (x for x in y).gi_frame.f_back.f_builtins reaches the real builtins without a dunder
+            raise SecurityError(f"Introspection access prohibited: .{node.attr}")
 
         if isinstance(node, ast.Attribute) and node.attr in {'format', 'format_map'}:
             # NOTE: '{0.__class__}'.format(x) reads attributes without an ast.Attribute node
